@@ -311,6 +311,11 @@ pub struct SimEh<'a, 's> {
 
 pub const EH_END: u8 = 0xED;
 
+/// how the sticky "line dead" error of the embedded-hal mock shows up in an observation
+pub fn eh_end_name() -> String {
+    format!("{:?}", nb::Error::<u8>::Other(EH_END))
+}
+
 impl<'a, 's> embedded_hal::serial::Read<u8> for SimEh<'a, 's> {
     type Error = u8;
     fn read(&mut self) -> nb::Result<u8, u8> {
@@ -422,7 +427,7 @@ pub struct AppPlan<'a> {
 fn is_terminal(item: &Item, eh: bool) -> bool {
     if eh {
         matches!(item, Item::Io(IoKind::WouldBlock, 0) | Item::NbWouldBlock)
-            || matches!(item, Item::Io(IoKind::Other(s), _) if s.contains(&format!("Other({})", EH_END)))
+            || matches!(item, Item::Io(IoKind::Other(s), _) if *s == eh_end_name())
     } else {
         matches!(item, Item::End | Item::Io(IoKind::Eof, 0))
     }
